@@ -25,8 +25,8 @@ pub const RULE: &str = "a case = configuration (updater name/version, OS fields 
 service URL from a grammar), request parameters (all 16 combinations), ids set/unset, and a sequence of <= 10 \
 add_update_check / add_ping / add_event operations over a pool of app values in which ids repeat with differing cohorts; \
 the built request is compared with an independently encoded expected document (parsed-body equality + raw-text checks: no \
-duplicate keys, braced lower-case GUIDs, numeric codes) and expected method/URI/headers; build is called twice and the \
-builder extended afterwards. non-trivial = >= 2 distinct app ids with a repeated id carrying a different cohort, or >= 2 \
+duplicate keys, braced lower-case GUIDs, numeric codes) and expected method/URI/headers; build is called twice, the \
+builder is then given up to three further operations and must send what a fresh builder given all operations sends. non-trivial = >= 2 distinct app ids with a repeated id carrying a different cohort, or >= 2 \
 events; distinct by case hash.";
 
 #[derive(Clone, Debug)]
@@ -336,8 +336,20 @@ pub fn case(t: &mut Tape, ctx: &CaseCtx) -> CaseResult {
             }
         })
         .collect();
+    // operations added after the builder has already been built from (drawn last: older tapes decode to none)
+    let nops2 = t.choose(4);
+    let ops2: Vec<Op> = (0..nops2)
+        .map(|_| {
+            let a = t.choose(apps.len());
+            match t.choose(3) {
+                0 => Op::UpdateCheck(a),
+                1 => Op::Ping(a),
+                _ => Op::Event(a, gen_event(t)),
+            }
+        })
+        .collect();
     let case_json = json!({"updater": name, "updater_version": uver, "os": os, "service_url": url.text,
-        "params": format!("{params:?}"), "apps": format!("{apps:?}"), "ops": format!("{ops:?}"), "ids": [set_request_id, set_session_id]});
+        "params": format!("{params:?}"), "apps": format!("{apps:?}"), "ops": format!("{ops:?}"), "ops_after_first_build": format!("{ops2:?}"), "ids": [set_request_id, set_session_id]});
     let bad = |sig: &str, msg: String| Err(Failure::new(sig, msg, case_json.clone()));
 
     if url.text.parse::<http::Uri>().is_err() {
@@ -512,7 +524,23 @@ pub fn case(t: &mut Tape, ctx: &CaseCtx) -> CaseResult {
     }
     // ---- the builder is still usable and unaltered: extending it afterwards yields the old apps first
     let extra = App::builder().id("zz-extra").version([7]).build();
-    let (r3, _) = match rb.add_ping(&extra).build(None::<&StandardCupv2Handler>) {
+    fn apply_op<'a>(rb: RequestBuilder<'a>, op: &Op, built_apps: &[App]) -> RequestBuilder<'a> {
+        match op {
+            Op::UpdateCheck(a) => rb.add_update_check(&built_apps[*a]),
+            Op::Ping(a) => rb.add_ping(&built_apps[*a]),
+            Op::Event(a, e) => rb.add_event(&built_apps[*a], build_event(e)),
+        }
+    }
+    let apply = |rb, op: &Op| apply_op(rb, op, &built_apps);
+    let mut rbx = rb;
+    for op in &ops2 {
+        rbx = apply(rbx, op);
+    }
+    // (a new app only when no other operation follows the builds: the later operations alone must show up as well)
+    if ops2.is_empty() {
+        rbx = rbx.add_ping(&extra);
+    }
+    let (r3, _) = match rbx.build(None::<&StandardCupv2Handler>) {
         Ok(x) => x,
         Err(e) => return bad("build-after-extend", format!("{e:?}")),
     };
@@ -520,9 +548,37 @@ pub fn case(t: &mut Tape, ctx: &CaseCtx) -> CaseResult {
     let v3: Value = serde_json::from_slice(&b3.body).unwrap_or(Value::Null);
     let apps3 = v3["request"]["app"].as_array().cloned().unwrap_or_default();
     let old = got["request"]["app"].as_array().cloned().unwrap_or_default();
-    let extended_ok = if order.iter().any(|i| i == "zz-extra") { apps3.len() == old.len() } else { apps3.len() == old.len() + 1 && apps3[..old.len()] == old[..] };
-    if !extended_ok {
-        return bad("builder-altered", "extending the builder after build() did not preserve the earlier apps".into());
+    if ops2.is_empty() {
+        let extended_ok = if order.iter().any(|i| i == "zz-extra") { apps3.len() == old.len() } else { apps3.len() == old.len() + 1 && apps3[..old.len()] == old[..] };
+        if !extended_ok {
+            return bad("builder-altered", "extending the builder after build() did not preserve the earlier apps".into());
+        }
+    }
+    // building must not have altered the builder: a builder that was built from twice and then extended yields the
+    // request of a fresh builder given the same operations
+    let mut fresh = RequestBuilder::new(&config, &params);
+    for op in ops.iter().chain(&ops2) {
+        fresh = apply(fresh, op);
+    }
+    if set_request_id {
+        fresh = fresh.request_id(rid.clone());
+    }
+    if set_session_id {
+        fresh = fresh.session_id(sid.clone());
+    }
+    if ops2.is_empty() {
+        fresh = fresh.add_ping(&extra);
+    }
+    let (rf, _) = match fresh.build(None::<&StandardCupv2Handler>) {
+        Ok(x) => x,
+        Err(e) => return bad("build-error", format!("build failed for a valid configuration: {e:?}")),
+    };
+    let bf = take(rf);
+    if b3.method != bf.method || b3.uri != bf.uri || b3.headers != bf.headers || b3.body != bf.body {
+        return bad(
+            "built-builder-differs-from-fresh",
+            format!("a builder that had been built from and was then given more operations sends {}; a fresh builder given all the operations sends {}", String::from_utf8_lossy(&b3.body), String::from_utf8_lossy(&bf.body)),
+        );
     }
 
     let distinct_ids = order.len();
@@ -535,6 +591,9 @@ pub fn case(t: &mut Tape, ctx: &CaseCtx) -> CaseResult {
     }
     if n_events >= 2 {
         classes.push("multi_event");
+    }
+    if !ops2.is_empty() {
+        classes.push("operations_added_after_a_build");
     }
     if order.is_empty() {
         classes.push("no_apps");
